@@ -1,10 +1,11 @@
 #!/bin/bash
-# usage: tools/seeded_batch.sh ID[:name]...   (intake + run the property's own check for each; sequential because /repo is patched in place)
+# usage: tools/seeded_batch.sh ID[:name[:srcdir]]...   (intake + run the property's own check for each; sequential because /repo is patched in place)
 cd /verif
 for spec in "$@"; do
-  id=${spec%%:*}; name=${spec##*:}
+  IFS=: read id name src <<< "$spec"
+  name=${name:-$id}
   echo "=== $name $(date +%H:%M:%S)" >> work/seeded_log.txt
-  tools/seeded.py intake $id $name >> work/seeded_log.txt 2>&1
+  tools/seeded.py intake $id $name $src >> work/seeded_log.txt 2>&1
   tools/seeded.py run $name >> work/seeded_log.txt 2>&1
 done
 echo "BATCH DONE $*" >> work/seeded_log.txt
